@@ -28,6 +28,10 @@ type Program struct {
 	ContractFiles map[string][]string
 	globalInit    map[*ssa.Global]*globalInit
 	unstable      map[*ssa.Global]bool
+	mdCache       map[*ssa.Function][]bool
+	nnCache       map[*ssa.Function][]bool
+	mwCache       map[*ssa.Function][]bool
+	mdMu          sync.Mutex
 	facets        []ifaceFacet
 	facetOnce     sync.Once
 }
